@@ -32,6 +32,7 @@
 -/
 import DDS.Proofs.GenPaginated
 import DDS.Props.C04Pag
+import DDS.Props.C04GenPag
 import DDS.Proofs.GenSketch
 import DDS.Generated.CodeStoreDecode
 
@@ -311,6 +312,54 @@ theorem sim_copy {x : GPS grow} {st : Store} (h : Sim x st) :
   refine ⟨s, s', (s.buffer.length : Int), ?_, rfl, hi, hi', hc⟩
   simp only [gps_copy, gCopy, hx, copy_spec, okOr_ok]
 
+
+/-- same-kind `MergeWith` -/
+theorem sim_mergeWith {x y : GPS grow} {st so : Store} (h : Sim x st) (h' : Sim y so) :
+    Sim (StoreI.MergeWith x y : GPS grow) (StoreI.MergeWith st so) := by
+  obtain ⟨s, s', cap, hx, rfl, hi, hi', hc⟩ := h
+  obtain ⟨o, o', cap', hy, rfl, ho, ho', hco⟩ := h'
+  obtain ⟨g', s1, hg, ⟨cap1, rfl⟩, hi1, hc1⟩ :=
+    Props.C04GenPag.gen_merge s o hi ho cap cap' grow (fun s _ => .ok s)
+      (mergeFuel addFuel s o + 1) (Nat.le_succ _)
+  obtain ⟨s1', hm', hi1', hc1'⟩ := Props.C04Pag.mergeSame_content s' o' hi' ho'
+  refine ⟨s1, s1', cap1, ?_, ?_, hi1, hi1', by rw [hc1, hc1', hc, hco]⟩
+  · simp only [gps_mergeWith, gMergeWith, hx, hy, ofGen_toGen, hg, okOr_ok]
+  · simp only [GenSketch.store_mergeWith, Store.mergeWith, hi'.log2, ho'.log2, if_true, hm', Option.map_some,
+      Option.getD_some]
+
+/-- `Reweight(w)`, every float factor: the same error, related receivers -/
+theorem sim_reweight {x : GPS grow} {st : Store} (h : Sim x st) (w : F64) :
+    (StoreI.Reweight x w).2 = (StoreI.Reweight st w).2 ∧
+      Sim (StoreI.Reweight x w).1 (StoreI.Reweight st w).1 := by
+  simp only [gps_reweight, gReweight, GenSketch.store_reweight, GenSketch.storeReweight]
+  by_cases hle : F64.le w (.fin 0) = true
+  · simp only [hle, if_true]; exact ⟨trivial, h⟩
+  · simp only [hle, Bool.false_eq_true, if_false]
+    cases w with
+    | fin q =>
+      have hq : ¬ q ≤ 0 := by
+        intro hq; rw [GenSketch.le_fin_zero] at hle; exact hle (by simpa using hq)
+      have hpos : 0 < q := Rat.not_le.mp hq
+      obtain ⟨s, s', cap, hx, rfl, hi, hi', hc⟩ := id h
+      by_cases h1 : q = 1
+      · subst h1
+        simp only [reweight_one]
+        have : (Store.pg s').reweight 1 = some (.ok (.pg s')) := by
+          unfold Store.reweight; rw [if_neg hq, if_pos rfl]
+        simp only [this]
+        exact ⟨trivial, h⟩
+      · obtain ⟨s1, hr, hi1, hc1⟩ := Props.C04Pag.reweight_content s hi q hpos
+        obtain ⟨s1', hr', hi1', hc1'⟩ := Props.C04Pag.reweight_content s' hi' q hpos
+        have hg := reweight_spec page_spec s cap grow q (reweightFuel s q + 1) hpos h1 (Nat.le_succ _)
+        rw [hr, GenDense.toRes_some] at hg
+        have hm : (Store.pg s').reweight q = some (.ok (.pg s1')) := by
+          unfold Store.reweight; rw [if_neg hq, if_neg h1]
+          simp only [hr', Option.map_some]
+        simp only [hx, ofGen_toGen, hg, hm]
+        exact ⟨trivial, s1, s1', cap, rfl, rfl, hi1, hi1', by rw [hc1, hc1', hc]⟩
+    | pinf => exact ⟨rfl, h⟩
+    | ninf => exact absurd rfl hle
+    | nan => exact ⟨rfl, h⟩
 
 /-! ### sketches: the regenerated sketch code over the two store instances -/
 
